@@ -10,9 +10,11 @@ check("C18", "model_checking",
       "Third part (CliArgs.tla): every base invocation with up to 2 (3) deviations among -o, backend / link arguments by flag and / or config file, "
       "wasm in the config, broken config files, 1-3 input files in both orders, unreadable inputs, out dirs that are missing / deep / a file, core: and vendor: "
       "paths, the same module twice, NO_COLOR / TERM=dumb, and the `penne fuzz tokens` product (1 746 / 13 074 + 84 configurations), each replayed on the real binary. "
-      "Fourth part (CliSession.tla, a state machine): sessions of up to 4 (5) steps in ONE output directory -- emit (both modules / the imported one, native / --wasm), "
+      "Fourth part (CliSession.tla, a state machine): sessions of up to 4 (5) steps in ONE output directory -- emit, and to one step less also build with the recording backend "
+      "(both modules / the imported one, native / --wasm), "
       "edit of one source text, a foreign file planted at the path of an IR file, removal; TLC checks that the rule makes an emission a function of sources and target "
-      "alone and emits every behaviour ending with an emission (2 852 / 26 124); each is replayed, every IR file compared after every emission with an emission into an empty directory.",
+      "alone and emits every behaviour ending with an emission (3 888 / 43 k); each is replayed, every IR file and the standard input of the backend compared after every emission with the same invocation in an empty directory; "
+      "40 (400) random sessions of 25 steps recorded from the real binary are validated by TLC against the same specification (Trace_CliSession.tla).",
       "Trusted: TLC, the fake backends, the reading of --silent as 'no visible output'. Absolute input paths are outside the property's "
       "quantifier (noted, not reported). The optimised build is the binary under test.",
       "TLA+ specs (Cli.tla, CliDiag.tla, CliArgs.tla, CliSession.tla) + TLC enumeration of the configuration products, one implementation test per configuration on the real binary",
